@@ -93,6 +93,10 @@ type Disk struct {
 
 	// error injection: fail the next n mutations (without effect) with ErrDisk
 	failWrites int
+	// failAt >= 0: the (failAt+1)-th mutation from now is refused with ErrDisk (no effect), later ones succeed
+	failAt    int
+	FailLabel string // label of the refused write
+	FailPrev  string // label of the last write that succeeded before it
 
 	Reads, Writes int
 	// Rejected counts the mutations refused because of FailNextWrites.
@@ -102,13 +106,16 @@ type Disk struct {
 	// again after every completed mutation: the seam a ParkSched uses to decide which caller goroutine
 	// proceeds.
 	Yield func()
+	// ReadDelay, when set, is called with the key at the start of every point read (no disk lock held): the seam
+	// for simulated read latency.
+	ReadDelay func(key string)
 }
 
 func NewDisk(f *Fence) *Disk {
 	if f == nil {
 		f = NewFence()
 	}
-	return &Disk{data: map[string][]byte{}, base: map[string][]byte{}, fence: f, armed: -1}
+	return &Disk{data: map[string][]byte{}, base: map[string][]byte{}, fence: f, armed: -1, failAt: -1}
 }
 
 func (d *Disk) Fence() *Fence { return d.fence }
@@ -138,6 +145,17 @@ func (d *Disk) FailNextWrites(n int) {
 	d.mu.Lock()
 	defer d.mu.Unlock()
 	d.failWrites = n
+}
+
+// FailAt makes the (k+1)-th mutation from now fail with ErrDisk, without effect (k < 0: disarm).
+func (d *Disk) FailAt(k int) {
+	d.mu.Lock()
+	defer d.mu.Unlock()
+	if k < 0 {
+		k = -1
+	}
+	d.failAt = k
+	d.FailLabel, d.FailPrev = "", ""
 }
 
 func (d *Disk) JournalLen() int {
@@ -278,6 +296,17 @@ func (d *Disk) apply(epoch int, kind string, ops []journalOp) error {
 		d.mu.Unlock()
 		return ErrDisk
 	}
+	if d.failAt == 0 {
+		d.failAt = -1
+		d.Rejected++
+		d.FailLabel = labelOps(ops)
+		d.mu.Unlock()
+		return ErrDisk
+	}
+	if d.failAt > 0 {
+		d.failAt--
+		d.FailPrev = labelOps(ops)
+	}
 	if d.armed == 0 {
 		d.armed = -1
 		d.CrashFired = true
@@ -337,6 +366,9 @@ func (h *Handle) check() error {
 }
 
 func (h *Handle) Get(ctx context.Context, key ds.Key) ([]byte, error) {
+	if h.d.ReadDelay != nil {
+		h.d.ReadDelay(key.String())
+	}
 	if err := h.check(); err != nil {
 		return nil, err
 	}
@@ -351,6 +383,9 @@ func (h *Handle) Get(ctx context.Context, key ds.Key) ([]byte, error) {
 }
 
 func (h *Handle) Has(ctx context.Context, key ds.Key) (bool, error) {
+	if h.d.ReadDelay != nil {
+		h.d.ReadDelay(key.String())
+	}
 	if err := h.check(); err != nil {
 		return false, err
 	}
@@ -362,6 +397,9 @@ func (h *Handle) Has(ctx context.Context, key ds.Key) (bool, error) {
 }
 
 func (h *Handle) GetSize(ctx context.Context, key ds.Key) (int, error) {
+	if h.d.ReadDelay != nil {
+		h.d.ReadDelay(key.String())
+	}
 	if err := h.check(); err != nil {
 		return -1, err
 	}
